@@ -145,16 +145,16 @@ func bpair(capAB int, planAB []int, capBA int, planBA []int) (a, b *bconn) {
 	return &bconn{rd: ba, wr: ab}, &bconn{rd: ab, wr: ba}
 }
 
-func (c *bconn) Read(b []byte) (int, error)         { return c.rd.read(b) }
-func (c *bconn) Write(b []byte) (int, error)        { return c.wr.write(b) }
-func (c *bconn) CloseWrite() error                  { c.wr.closeWrite(); return nil }
-func (c *bconn) CloseRead() error                   { c.rd.closeRead(); return nil }
-func (c *bconn) Close() error                       { c.wr.closeWrite(); c.rd.closeRead(); return nil }
-func (c *bconn) LocalAddr() net.Addr                { return baddr{} }
-func (c *bconn) RemoteAddr() net.Addr               { return baddr{} }
-func (c *bconn) SetDeadline(time.Time) error        { return nil }
-func (c *bconn) SetReadDeadline(time.Time) error    { return nil }
-func (c *bconn) SetWriteDeadline(time.Time) error   { return nil }
-func (c *bconn) bytesWritten() int64                { c.wr.mu.Lock(); defer c.wr.mu.Unlock(); return c.wr.written }
-func (c *bconn) peerClosedWrite() bool              { c.rd.mu.Lock(); defer c.rd.mu.Unlock(); return c.rd.wclosed }
-func (c *bconn) peerClosedRead() bool               { c.wr.mu.Lock(); defer c.wr.mu.Unlock(); return c.wr.rclosed }
+func (c *bconn) Read(b []byte) (int, error)       { return c.rd.read(b) }
+func (c *bconn) Write(b []byte) (int, error)      { return c.wr.write(b) }
+func (c *bconn) CloseWrite() error                { c.wr.closeWrite(); return nil }
+func (c *bconn) CloseRead() error                 { c.rd.closeRead(); return nil }
+func (c *bconn) Close() error                     { c.wr.closeWrite(); c.rd.closeRead(); return nil }
+func (c *bconn) LocalAddr() net.Addr              { return baddr{} }
+func (c *bconn) RemoteAddr() net.Addr             { return baddr{} }
+func (c *bconn) SetDeadline(time.Time) error      { return nil }
+func (c *bconn) SetReadDeadline(time.Time) error  { return nil }
+func (c *bconn) SetWriteDeadline(time.Time) error { return nil }
+func (c *bconn) bytesWritten() int64              { c.wr.mu.Lock(); defer c.wr.mu.Unlock(); return c.wr.written }
+func (c *bconn) peerClosedWrite() bool            { c.rd.mu.Lock(); defer c.rd.mu.Unlock(); return c.rd.wclosed }
+func (c *bconn) peerClosedRead() bool             { c.wr.mu.Lock(); defer c.wr.mu.Unlock(); return c.wr.rclosed }
